@@ -5,6 +5,7 @@ go 1.23.0
 require (
 	github.com/go-git/go-git/v5 v5.16.0
 	github.com/monshunter/goat v0.0.0
+	golang.org/x/tools v0.32.0
 )
 
 require (
@@ -25,10 +26,12 @@ require (
 	golang.org/x/crypto v0.37.0 // indirect
 	golang.org/x/mod v0.24.0 // indirect
 	golang.org/x/net v0.39.0 // indirect
+	golang.org/x/sync v0.13.0 // indirect
 	golang.org/x/sys v0.32.0 // indirect
-	golang.org/x/tools v0.32.0 // indirect
 	gopkg.in/warnings.v0 v0.1.2 // indirect
 	gopkg.in/yaml.v3 v3.0.1 // indirect
 )
 
 replace github.com/monshunter/goat => /repo
+
+replace golang.org/x/sync => golang.org/x/sync v0.10.0
